@@ -4,8 +4,7 @@ import (
 	"strings"
 
 	"golang.org/x/net/html"
-
-	"github.com/titpetric/vuego/internal/helpers"
+	"golang.org/x/net/html/atom"
 )
 
 // C02 — rendering is faithful: static content and values survive an HTML round trip.
@@ -35,6 +34,12 @@ var zzC02Templates = []string{
 <p>para one</p>
 
 <p>para two</p>`,
+	// doctypes with public / system identifiers (the second one selects quirks mode, which changes how <p><table> nests)
+	/* 14 */ `<!DOCTYPE html PUBLIC "-//W3C//DTD XHTML 1.0 Strict//EN" "http://www.w3.org/TR/xhtml1/DTD/xhtml1-strict.dtd"><html><head><title>T</title></head><body><p>doc</p></body></html>`,
+	/* 15 */ `<!DOCTYPE HTML PUBLIC "-//W3C//DTD HTML 4.01 Transitional//EN"><html><head><title>T</title></head><body><p>para<table><tr><td>cell</td></tr></table></body></html>`,
+	/* 16 */ `<!DOCTYPE html SYSTEM "about:legacy-compat"><html><head></head><body><p>doc</p></body></html>`,
+	// text that consists of non-ASCII space characters only is text
+	/* 17 */ `<table><tr><td>&nbsp;</td><td>a&nbsp;b</td></tr></table><p>&nbsp;</p><span>&emsp;</span><ul><li>&#160;&#xA0;</li></ul>`,
 }
 
 // zzTreeSig flattens a parsed tree into a signature: elements, attributes
@@ -66,10 +71,14 @@ func zzTreeSig(nodes []*html.Node) string {
 		case html.TextNode:
 			// adjacent text runs (separated by comments only) are one run;
 			// white space is insignificant
-			text += strings.Join(strings.Fields(n.Data), "")
+			text += zzStripASCIISpace(n.Data)
 		case html.DoctypeNode:
 			flush()
-			sb.WriteString("<!doctype " + n.Data + ">")
+			sb.WriteString("<!doctype " + n.Data)
+			for _, a := range n.Attr { // public and system identifiers
+				sb.WriteString(" " + a.Key + "=" + a.Val)
+			}
+			sb.WriteString(">")
 		case html.DocumentNode:
 			for c := n.FirstChild; c != nil; c = c.NextSibling {
 				walk(c)
@@ -83,6 +92,20 @@ func zzTreeSig(nodes []*html.Node) string {
 	return sb.String()
 }
 
+// zzStripASCIISpace removes the characters HTML treats as white space (and
+// only those: a no-break space is text).
+func zzStripASCIISpace(s string) string {
+	var b strings.Builder
+	for i := 0; i < len(s); i++ {
+		switch s[i] {
+		case ' ', '\t', '\n', '\r', '\f':
+		default:
+			b.WriteByte(s[i])
+		}
+	}
+	return b.String()
+}
+
 func zzParse(src string) []*html.Node {
 	if strings.Contains(src, "</html>") {
 		doc, err := html.Parse(strings.NewReader(src))
@@ -91,7 +114,7 @@ func zzParse(src string) []*html.Node {
 		}
 		return []*html.Node{doc}
 	}
-	nodes, err := html.ParseFragment(strings.NewReader(src), helpers.GetBodyNode())
+	nodes, err := html.ParseFragment(strings.NewReader(src), &html.Node{Type: html.ElementNode, DataAtom: atom.Body, Data: "body"})
 	if err != nil {
 		return nil
 	}
